@@ -4,6 +4,7 @@ import GstVerif.Mesh.Model
        the non-zero entries of one row of the projection matrix: weights >= 0, sum = 1, and
        Σ w_i apex_i = point (affine functions are reproduced)
    u outside <number of non-zero entries> =>          a point outside the mesh has an empty row
+   u inside <kind> <point> <number of non-zero entries> =>   a centroid / apex / edge midpoint of the mesh has a non-empty row
 -/
 namespace GstVerif.Mesh
 open GstVerif
@@ -27,6 +28,8 @@ def handle (args : List String) (_impl : List String) : String :=
         | none => "ok"
         | some d => s!"bad projection: coordinate {d} is not reproduced by the weights"
     | _, _, _, _ => "bad-op"
+  | ["inside", what, pt, n] =>
+    if n = "0" then s!"bad projection: a point of the mesh ({what} {pt}) has an empty row (no weight at all)" else "ok"
   | ["outside", n] => if n = "0" then "ok" else s!"bad projection: a point outside the mesh has {n} non-zero weights"
   | _ => "bad-op"
 
